@@ -287,8 +287,14 @@ PROPS = {
     },
     "C06": {
         "level": "other",
-        "units": [],
+        "units": ["symbols"],
         "kani": [
+            {"group": "g0", "name": "c06_from_slice_index_window_bounded", "kind": "bounded", "tier": "quick",
+             "bound": "buffers of at most 6 octets, every position 0..=8 (the function reads at most 4 octets from pos)",
+             "what": "Symbol::from_slice_index (the reader): total; None exactly at/after the end; a returned end is > pos, <= len, "
+                     "<= pos+4; ASCII read as itself; decimal and simple escapes yield their octet"},
+            {"group": "g0", "name": "c06_core_ascii_classes_match", "kind": "complete", "tier": "quick",
+             "what": "core's u8::is_ascii_control / is_ascii_digit / char::is_ascii (assumed in units/symbols) on every octet / char"},
             {"group": "g0", "name": "c06_symbol_octet_roundtrip", "kind": "complete", "tier": "quick", "timeout": 400,
              "what": "for every octet: Symbol::from_octet -> Display -> Symbol::from_slice_index consumes exactly the written text and "
                      "yields the octet; the written symbol never ends a word for the zone-file tokenizer (is_word_char)"},
@@ -300,7 +306,9 @@ PROPS = {
             {"bin": "d8_owner_name_special_chars", "crate": "replay_net", "finding": "D8"},
             {"bin": "d17_owner_leading_dollar", "crate": "replay_net", "finding": "D17"},
         ],
-        "explanation": "per-symbol writer/reader agreement, complete over all octet values (the escaping rules shared by the presentation "
+        "explanation": "Verus (unit symbols): Symbol::{from_octet, quoted_from_octet, display_from_octet} choose exactly the specified "
+                       "escape class per octet, Symbol::into_octet / is_word_char are exact, and the chosen symbol means the octet. Kani: "
+                       "per-symbol writer/reader agreement, complete over all octet values (the escaping rules shared by the presentation "
                        "writer and the zone-file reader are per octet and context-free, so all 256 cases decide this layer); binary "
                        "fields in Base16/32/64 are decided under C18. One native replay writes and re-reads whole records whose owner "
                        "contains tokenizer-special characters.",
@@ -343,7 +351,12 @@ PROPS = {
     "C07": {
         "level": "other",
         "units": ["zfsource"],
-        "kani": [],
+        "kani": [
+            {"group": "g0", "name": "c06_from_slice_index_window_bounded", "kind": "bounded", "tier": "quick",
+             "bound": "buffers of at most 6 octets, every position 0..=8",
+             "what": "the contract that unit zfsource assumes for Symbol::from_slice_index (end position > pos and <= len; None "
+                     "exactly at the end), checked on the compiled function"},
+        ],
         "replays": [
             {"bin": "d16_zonefile_txt_at_eof", "crate": "replay_net", "finding": "D16"},
         ],
